@@ -22,6 +22,9 @@ pub struct PtCase {
     /// taken before the attempt
     #[serde(default)]
     pub retry_on_same_object: bool,
+    /// consists only (C08): default hybrid locomotives appended to the generated units
+    #[serde(default)]
+    pub hybrids: usize,
 }
 
 pub fn gen_pt_case(g: &mut Gen, tier: Tier, force_consist: Option<bool>) -> PtCase {
@@ -38,7 +41,7 @@ pub fn gen_pt_case_dt(g: &mut Gen, tier: Tier, force_consist: Option<bool>, coar
     let max_steps = if tier == Tier::Thorough { 80 } else { 40 };
     let dtm = if coarse_dt_p > 0.0 && g.bool(coarse_dt_p) { 10.0 } else { dt_max(&units) };
     let steps = gen_steps(g, max_steps, dtm, !consist);
-    PtCase { units, consist, pdct, steps, retry_on_same_object: false }
+    PtCase { units, consist, pdct, steps, retry_on_same_object: false, hybrids: 0 }
 }
 
 pub type Vals = BTreeMap<String, f64>;
@@ -140,6 +143,13 @@ pub fn drive(case: &PtCase) -> PtTrace {
                 return tr;
             }
         };
+        if case.hybrids > 0 {
+            let mut v = con.loco_vec.clone();
+            for _ in 0..case.hybrids {
+                v.push(Locomotive::default_hybrid_electric_loco());
+            }
+            con = Consist::new(v, None, con.pdct.clone());
+        }
         for s in &case.steps {
             let t_new = t_prev + s.dt;
             let dt_used = t_new - t_prev;
@@ -275,7 +285,14 @@ pub fn sim_differential(case: &PtCase, tr: &PtTrace, cx: &mut Ctx) {
     let trace = PowerTrace::new(time, pwr, eo);
     let borderline = acc.iter().any(|s| s.kind != 4 && s.frac >= 0.999 && s.request != 0.0);
     let (res, units, con): (anyhow::Result<()>, Vec<Vals>, Vals) = if case.consist {
-        let Ok(c) = build_consist(&case.units, case.pdct, None) else { return };
+        let Ok(mut c) = build_consist(&case.units, case.pdct, None) else { return };
+        if case.hybrids > 0 {
+            let mut v = c.loco_vec.clone();
+            for _ in 0..case.hybrids {
+                v.push(Locomotive::default_hybrid_electric_loco());
+            }
+            c = Consist::new(v, None, c.pdct.clone());
+        }
         let mut sim = ConsistSimulation::new(c, trace, None);
         let r = sim.walk();
         let mut cv = Vals::new();
@@ -331,6 +348,7 @@ fn common_labels(case: &PtCase, tr: &PtTrace, cx: &mut Ctx) -> (usize, bool, boo
     cx.label_if(n_bel < case.units.len(), "has_conv");
     cx.label_if(case.consist && case.pdct == 0, "res_greedy");
     cx.label_if(case.consist && case.pdct == 1, "proportional");
+    cx.label_if(case.hybrids > 0, "consist_with_hybrid_locomotive");
     let traction = acc.iter().any(|s| s.request > 0.0);
     let braking = acc.iter().any(|s| s.request < 0.0);
     let regen = acc.iter().any(|s| s.post.iter().any(|u| has(u, "res.soc") && g(u, "edrv.pwr_mech_prop_out") < 0.0));
@@ -558,7 +576,7 @@ pub fn check_c08(case: &PtCase, cx: &mut Ctx) {
                 engine_off_seen = true;
                 if has(v, "fc.pwr_fuel") {
                     if g(v, "fc.pwr_fuel") != 0.0 {
-                        cx.fail("C08|bound|engine_off.pwr_fuel>0", format!("step {k} unit {u}: engine off but fc.pwr_fuel = {:e} (idle fuel parameter {:?})", g(v, "fc.pwr_fuel"), match &case.units[u] { UnitSpec::Conv { fc, .. } => fc.idle, _ => 0.0 }));
+                        cx.fail("C08|bound|engine_off.pwr_fuel>0", format!("step {k} unit {u}: engine off but fc.pwr_fuel = {:e} (idle fuel parameter {:?})", g(v, "fc.pwr_fuel"), match case.units.get(u) { Some(UnitSpec::Conv { fc, .. }) => fc.idle, _ => 0.0 }));
                     }
                     if g(v, "fc.pwr_idle_fuel") != 0.0 {
                         cx.fail("C08|bound|engine_off.pwr_idle_fuel>0", format!("step {k} unit {u}: {:e}", g(v, "fc.pwr_idle_fuel")));
@@ -838,6 +856,12 @@ macro_rules! pt_prop {
                 let mut c = gen_pt_case_dt(g, tier, $force, $coarse);
                 if $retry > 0.0 && !c.consist {
                     c.retry_on_same_object = g.bool($retry);
+                }
+                // the second law is claimed for every component: C08's consists also carry
+                // default hybrid locomotives (C01 / C09 / C10 are stated for conventional and
+                // battery-electric units only)
+                if $id == "C08" && c.consist && g.bool(0.2) {
+                    c.hybrids = g.usize(1, 2);
                 }
                 c
             }
